@@ -1,8 +1,10 @@
 //@ append src/crypto/src/scrypt.rs
 //@ harness salsa_xor_is_rfc7914 complete "all 2x16 32-bit words; fixed-trip loops fully unwound (unwinding assertions on)" unwind=17
-//@ harness block_mix_is_rfc7914 bounded "r in {1,2}, all block contents; Salsa20/8 replaced on both sides by one cheap model (salsa_xor itself: harness salsa_xor_is_rfc7914)" unwind=18 stubs=1
-//@ harness smix_is_rfc7914_romix bounded "r = 1, N in {2,4}, all block contents; Salsa20/8 replaced on both sides by one cheap model" unwind=34 stubs=1
+//@ xharness-superseded block_mix_is_rfc7914 bounded "r in {1,2}, all block contents; Salsa20/8 replaced on both sides by one cheap model (salsa_xor itself: harness salsa_xor_is_rfc7914)" unwind=18 stubs=1
+//@ xharness-superseded smix_is_rfc7914_romix bounded "r = 1, N in {2,4}, all block contents; Salsa20/8 replaced on both sides by one cheap model" unwind=34 stubs=1
 // RFC 7914 transcriptions (sections 3, 4, 5) used as the oracle for the real scrypt.rs functions.
+// block_mix / smix are now proved UNBOUNDED by Verus (units/scrypt_inner.vtinc); their bounded Kani harnesses below are
+// kept for reference but no longer registered (block_mix: 17 min; smix: did not finish in 20 min).
 #[cfg(kani)]
 #[allow(dead_code, non_snake_case)]
 mod verif_h_scrypt {
@@ -153,5 +155,17 @@ mod verif_h_scrypt {
         let i: usize = kani::any();
         kani::assume(i < 128);
         assert!(b[i] == expect[i], "smix differs from RFC 7914 scryptROMix");
+    }
+}
+
+//@ harness pow2_mask_is_mod complete "all 64-bit x and all N > 1 with N & (N-1) == 0: x & (N-1) == x % N (the Integerify-mod-N step)" unwind=2
+#[cfg(kani)]
+mod verif_h_pow2 {
+    #[kani::proof]
+    fn pow2_mask_is_mod() {
+        let x: u64 = kani::any();
+        let n: u64 = kani::any();
+        kani::assume(n > 1 && n & (n - 1) == 0);
+        assert!(x & (n - 1) == x % n, "mask differs from remainder for a power of two");
     }
 }
